@@ -117,3 +117,6 @@ cfg("MC_exec_sim.cfg", exec_consts(FieldAlpha="<- AlphaAll", Aliases='= {"", "z"
     ArgOpts="<- ArgOptsStd", MaxSel="= 10", MaxDepth="= 4", MaxFrags="= 2", MaxOps="= 2", OpTypes='= {"query", "mutation"}', MaxOverlay="= 0"), EXEC_INV)
 cfg("MC_exec_sim3.cfg", exec_consts(FieldAlpha="<- AlphaAll", Aliases='= {"", "z"}', Conds='= {"", "T", "P", "A", "B", "C", "U"}', DirOpts="<- NoDirs",
     ArgOpts="<- ArgOptsStd", MaxSel="= 12", MaxDepth="= 4", MaxFrags="= 1", MaxOps="= 1", OpTypes='= {"query", "mutation"}', MaxOverlay="= 0"), EXEC_INV)
+
+# ---- C18: envelope (operation selection x variables matrix; one request per behaviour) ---------
+cfg("MC_env.cfg", cache_consts(Capacity="= 99", MaxLen="= 1", ReqPool="<- PoolEnv"), CACHE_INV, spec="SpecE")
